@@ -68,6 +68,18 @@ def totalB (modal quantified emptyOk : Bool) : Bool :=
   && (!modal || [Op1.poss, Op1.nec].all (fun o => T.profiles.all fun P =>
       (P.isEmpty && !emptyOk) || match T.mf.lookup (o, P) with | some r => T.vals.contains r | none => false))
   && T.des.all T.vals.contains && T.vals.contains T.unassigned
+/-- the defined operators obey their definitions on the code's own tables:
+    A ⊃ B = ¬A ∨ B,  A ≡ B = (A ⊃ B) ∧ (B ⊃ A),  A ↔ B = (A → B) ∧ (B → A) -/
+def definedOpsBad : List (Op2 × V × V) :=
+  (T.vals.flatMap fun a => T.vals.map fun b => (a, b)).flatMap fun (a, b) =>
+    (if T.f2 .mcond a b == T.f2 .disj (T.f1 .neg a) b then [] else [(Op2.mcond, a, b)])
+    ++ (if T.f2 .mbicond a b == T.f2 .conj (T.f2 .mcond a b) (T.f2 .mcond b a) then [] else [(Op2.mbicond, a, b)])
+    ++ (if T.f2 .bicond a b == T.f2 .conj (T.f2 .cond a b) (T.f2 .cond b a) then [] else [(Op2.bicond, a, b)])
+
+/-- two logics have the same truth-functional tables, value set and designated values -/
+def sameTF (S : Tables) : Bool :=
+  T.vals == S.vals && T.des == S.des && T.t1 == S.t1 && T.t2 == S.t2
+
 end Tables
 
 /-! ### Rule templates -/
@@ -404,6 +416,14 @@ def badRead : List (List Lit) :=
 def readTotalB : Bool :=
   L.closure.all fun (S, c) => c || S.isEmpty || (L.readTable.lookup S).isSome
 
+/-- rules exist only for vocabulary the logic interprets -/
+def vocabOKB : Bool :=
+  L.rules.all fun (k, _) =>
+    match k.shape with
+    | .op1 o => !o.isModal || L.modal
+    | .quant _ => L.quantified
+    | .op2 _ => true
+
 /-- the frame rules present are justified by the frame class of the logic's models -/
 def frameRulesOKB : Bool :=
   L.frameRules.all fun n =>
@@ -415,6 +435,13 @@ def frameRulesOKB : Bool :=
     | .S4 => n == "Reflexive" || n == "Transitive" || n == "Serial"
     | .S5 => n == "Reflexive" || n == "Transitive" || n == "Symmetric" || n == "Serial"
 
+/-- classical family (identity / existence closure rules present): `T` is the only designated
+    value and `¬T` is not designated, so `¬ a=a` and `¬ E!a` are unsatisfiable and a designated
+    identity sentence is a true one -/
+def identOKB : Bool :=
+  !(L.closesSelfIdNeg || L.closesNonExist) ||
+    (L.T.vals.all (fun v => !L.T.isDes v || v == .T) && !L.T.isDes (L.T.f1 .neg .T) && !L.marks && !L.closesOtherIdent)
+
 /-- the trunk is satisfied by any countermodel: premises carry a "designated" marker (or none),
     the conclusion an "undesignated" one, or — classical style — is negated, which needs
     `¬des v → des (¬v)` on the logic's own table -/
@@ -423,6 +450,10 @@ def trunkOKB : Bool :=
   (if L.trunkConcNeg then
       L.trunkConc != some false && L.T.vals.all (fun v => L.T.isDes v || L.T.isDes (L.T.f1 .neg v))
    else L.trunkConc == some false)
+
+/-- side conditions of soundness that do not depend on which rules are in the table -/
+def soundCoreB : Bool :=
+  L.tablesTotalB && L.unsoundClosure.isEmpty && L.frameRulesOKB && L.identOKB && L.trunkOKB && L.vocabOKB
 
 end LogicData
 end Ptx
